@@ -77,13 +77,13 @@ class C16(Check):
         q = tier == "quick"
         rng = np.random.default_rng([seed, 16])
         kinds = list(WINDOWS)
-        for i in range(168 if q else 5000):
+        for i in range(168 if q else 2000):
             c = int(rng.choice([3, 10, 64, 500]))
             n = int(rng.choice([1, max(1, c - 1), c, c + 1, 3 * c + 1]))
             yield dict(kind="catalog", seed=seed * 100003 + i, window=kinds[i % len(kinds)], n=n, chunk=c,
                        mode="generate" if i % 5 == 4 else "centres", workers=4 if i % 4 == 3 else 1,
                        attrs=str(rng.choice(["none", "w", "z", "both"])), nattr=int(rng.choice([1, 2, 37, 1000])))
-        for i in range(42 if q else 700):
+        for i in range(42 if q else 300):
             yield dict(kind="uniform", seed=seed * 1009 + i, window=kinds[i % len(kinds)], n=20000 if q else 200000)
 
     def setup_worker(self):
